@@ -4,7 +4,8 @@ of the reference module that contains only the public declarations with their bo
 import time
 from . import replayrun
 
-KINDS = ['fn_body', 'fn_head', 'const', 'struct', 'extern_fn_body']
+KINDS = ['fn_body', 'fn_head', 'const', 'struct', 'extern_fn_body', 'opaque', 'extern_fn_head', 'word']
+NO_BODY = ['fn_head', 'const', 'struct', 'opaque', 'extern_fn_head', 'word']
 
 
 def decl(kind, name, pub):
@@ -18,6 +19,15 @@ def decl(kind, name, pub):
     elif kind == 'fn_head':
         full = '%sfn %s(a: []u8);\n' % (p, name)
         head = 'pub fn %s(a: []u8);\n' % name
+    elif kind == 'opaque':
+        full = '%sstruct %s;\n' % (p, name.capitalize())
+        head = 'pub struct %s;\n' % name.capitalize()
+    elif kind == 'extern_fn_head':
+        full = '%sextern fn %s(a: []u8, n: usize) -> i32;\n' % (p, name)
+        head = 'pub extern fn %s(a: []u8, n: usize) -> i32;\n' % name
+    elif kind == 'word':
+        full = '%sword32 %s\n{\n\ta: u16,\n\tb: u16,\n}\n' % (p, name.capitalize())
+        head = 'pub word32 %s\n{\n\ta: u16,\n\tb: u16,\n}\n' % name.capitalize()
     elif kind == 'const':
         full = '%sconst %s: i32 = 1 + 2;\n' % (p, name.upper())
         head = 'pub const %s: i32 = 1 + 2;\n' % name.upper()
@@ -27,7 +37,74 @@ def decl(kind, name, pub):
     return full, head
 
 
+def expected_header_xml(tree_xml):
+    """the property read directly on the XML dump: the header is the tree restricted to the declarations flagged Public,
+    in order, with that flag cleared and every <FunctionBody> element removed; everything else identical"""
+    import re
+    out = []
+    depth = 0
+    keep = False
+    skip_body = 0
+    for line in tree_xml.split('\n'):
+        t = line.strip()
+        if not t:
+            continue
+        closing = t.startswith('</')
+        selfclosing = t.endswith('/>')
+        if depth == 0 and not closing:
+            m = re.search(r'flags="([^"]*)"', t)
+            flags = m.group(1).split('|') if m and m.group(1) else []
+            keep = 'Public' in flags
+            if keep:
+                t = t.replace('flags="%s"' % m.group(1), 'flags="%s"' % '|'.join(f for f in flags if f != 'Public'))
+        if skip_body == 0 and t.startswith('<FunctionBody') and not selfclosing:
+            skip_body = 1
+        elif skip_body > 0:
+            if closing:
+                skip_body -= 1
+            elif not selfclosing:
+                skip_body += 1
+        elif keep:
+            out.append(t)
+        if closing:
+            depth -= 1
+        elif not selfclosing:
+            depth += 1
+    return out
+
+
+def search_xml(deadline, rng, max_tries=400):
+    tried = 0
+    while time.time() < deadline and tried < max_tries:
+        tried += 1
+        n = rng.randint(1, 6)
+        style = rng.random()
+        module = ''
+        for i in range(n):
+            pub = True if style < 0.3 else (rng.random() < 0.5)
+            kind = rng.choice(NO_BODY if style < 0.2 else KINDS)
+            module += decl(kind, 'd%d' % i, pub)[0]
+        r = replayrun.run('deltaxml', module.encode(), timeout=20)
+        if r.get('status') in ('panic', 'crash', 'timeout'):
+            return {'mode': 'deltaxml', 'input_utf8_lossy': module, 'input_hex': module.encode().hex(), 'observed': r, 'expected': 'no panic'}
+        if r.get('status') != 'ok' or 'tree' not in r['result']:
+            continue
+        tree = bytes.fromhex(r['result']['tree']).decode('utf-8', 'replace')
+        hdr = [l.strip() for l in bytes.fromhex(r['result']['header']).decode('utf-8', 'replace').split('\n') if l.strip()]
+        exp = expected_header_xml(tree)
+        if hdr != exp:
+            k = next((i for i in range(min(len(hdr), len(exp))) if hdr[i] != exp[i]), min(len(hdr), len(exp)))
+            return {'mode': 'deltaxml', 'input_utf8_lossy': module, 'input_hex': module.encode().hex(),
+                    'observed': {'status': 'ok', 'header_xml_line_%d' % k: hdr[k] if k < len(hdr) else '(missing)'},
+                    'expected': 'header XML = tree XML restricted to Public declarations, Public cleared, FunctionBody removed; line %d should be %s' % (k, exp[k] if k < len(exp) else '(nothing)'),
+                    'expect_result': {'header': '\n'.join(exp).encode().hex()}, 'modules_tried': tried}
+    return None
+
+
 def search(deadline, rng):
+    w = search_xml(time.time() + (deadline - time.time()) * 0.5, rng)
+    if w:
+        return w
     tried = 0
     while time.time() < deadline and tried < 600:
         tried += 1
